@@ -518,3 +518,5 @@ def _sel_cutoff_boundary(case, disc):
 
 
 SELECTORS = {"cutoff_plus_fh_equals_n": _sel_cutoff_boundary}
+
+FUZZ = [("sliding", 40000), ("expanding", 30000), ("cutoff", 30000), ("train_test_split", 20000)]
